@@ -803,7 +803,9 @@ class Surface:
             rsq = r * r
             z = conic_sag(params['c'], params['k'], rsq)
             dr = conic_sag_der(params['c'], params['k'], r)
-            dx, dy = surface_normal_from_cylindrical_derivatives(dr, 0, r, t)
+            # rotationally symmetric: the azimuthal derivative is identically zero, so the 1/r
+            # term of surface_normal_from_cylindrical_derivatives (inf*0 = NaN on axis) is not needed
+            dx, dy = dr * np.cos(t), dr * np.sin(t)
             return z, dx, dy
 
         return cls(typ=typ, P=P, n=n, FFp=FFp, R=R, params=params, bounding=bounding)
